@@ -52,6 +52,11 @@ type Unit struct {
 	NamedWrapped bool
 	NamedConn    string
 	WrappedRawOr bool
+	// Pending: input-side tag of a finding this unit family is known to trigger
+	// on the unchanged tree; Skip: left out of the quick enumeration until that
+	// tag is listed in known_findings.json (see MarkPending).
+	Pending string
+	Skip    bool
 	// Ext: member of a large family of near-identical forms (single-call groups
 	// around every raw spelling); quick tiers pair these only with the
 	// representative units in 2-call chains, thorough tiers with everything.
@@ -681,6 +686,59 @@ func Catalogue(opt Options) []*Unit {
 				Ext:  true,
 				Args: func(base *gorm.DB) []interface{} { return []interface{}{base.Where(o.args[0], o.args[1:]...)} }})
 		}
+	}
+
+	// ------------------------------- raw strings that steer gorm's classification
+	// '@' inside a quoted literal together with positional ? arguments, and a '?'
+	// inside a quoted literal together with named arguments (appended at the
+	// end: indices above stay stable). The rows with s = 'y@v?w' really match.
+	atY := Atom("s", "like", "%@v%")
+	qY := Atom("s", "like", "%?w")
+	eqY := Atom("s", "=", YVal)
+	type steer struct {
+		lab    string
+		render string
+		args   []interface{}
+		tree   *Node
+		conn   string
+		mem    []*Node
+		rep    int
+	}
+	steers := []steer{
+		{`"s LIKE '%@v%' OR a = ?",1`, "rawargs", []interface{}{"s LIKE '%@v%' OR a = ?", 1}, Or(atY, A1.n), "or", []*Node{atY, A1.n}, 2},
+		{`"a = ? OR s LIKE '%@v%'",1`, "rawargs", []interface{}{"a = ? OR s LIKE '%@v%'", 1}, Or(A1.n, atY), "or", []*Node{A1.n, atY}, 0},
+		{`"s LIKE '%@v%' AND a = ?",2`, "rawargs", []interface{}{"s LIKE '%@v%' AND a = ?", 2}, And(atY, Atom("a", "=", 2)), "and", []*Node{atY, Atom("a", "=", 2)}, 0},
+		{`"s LIKE '%@v%' OR b IN ?",[]int{1}`, "rawargs", []interface{}{"s LIKE '%@v%' OR b IN ?", []int{1}}, Or(atY, Atom("b", "in", []int{1})), "or", []*Node{atY, Atom("b", "in", []int{1})}, 0},
+		{`"s LIKE '%@v%' OR a = 1"`, "raw", []interface{}{"s LIKE '%@v%' OR a = 1"}, Or(atY, A1.n), "or", []*Node{atY, A1.n}, 0},
+		{`"s LIKE '%@v%'"`, "raw", []interface{}{"s LIKE '%@v%'"}, atY, "atom", nil, 0},
+		{`"s LIKE ?","%@v%"`, "rawargs", []interface{}{"s LIKE ?", "%@v%"}, atY, "atom", nil, 0},
+		// named arguments, a '?' inside the quoted literal
+		{`"s LIKE '%?w' OR a = @a",sql.Named("a",1)`, "named-q", []interface{}{"s LIKE '%?w' OR a = @a", sql.Named("a", 1)}, Or(qY, A1.n), "or", []*Node{qY, A1.n}, 0},
+		// (X) the same with the arguments given as a map is outside the alphabet:
+		// gorm takes any '?' of the text for a placeholder (the template rule noted
+		// under C01 X) and fails with "unsupported type map" - an error, no wrong rows
+		{`"a = @a OR s = 'y@v?w'",sql.Named("a",1)`, "named-q", []interface{}{"a = @a OR s = 'y@v?w'", sql.Named("a", 1)}, Or(A1.n, eqY), "or", []*Node{A1.n, eqY}, 0},
+		{`"s LIKE '%?w' AND a = @a",sql.Named("a",2)`, "named-q", []interface{}{"s LIKE '%?w' AND a = @a", sql.Named("a", 2)}, And(qY, Atom("a", "=", 2)), "and", []*Node{qY, Atom("a", "=", 2)}, 0},
+	}
+	for _, st := range steers {
+		st := st
+		add(&Unit{Label: st.lab, Render: st.render, Conn: st.conn, Tree: st.tree, Neg: Not(st.tree), NegOK: true, Members: st.mem,
+			Unqualified: true, Rep: st.rep, Ext: st.rep == 0, Pending: map[bool]string{true: "named-args-question-mark-in-literal"}[st.render == "named-q"],
+			Args: func(*gorm.DB) []interface{} { return st.args }})
+	}
+	// the first two also inside groups
+	for _, st := range steers[:2] {
+		st := st
+		add(&Unit{Label: "db.Or(" + st.lab + ")", Render: "group", Conn: "mixed", Tree: st.tree, Neg: Not(st.tree), NegOK: true, Unqualified: true, Ext: true,
+			RawTop: true, WrappedRawOr: true,
+			Args: func(base *gorm.DB) []interface{} { return []interface{}{base.Or(st.args[0], st.args[1:]...)} }})
+		add(&Unit{Label: "db.Not(" + st.lab + ")", Render: "group", Conn: "mixed", Tree: Not(st.tree), Neg: Not(Not(st.tree)), NegOK: true, Unqualified: true, Ext: true,
+			Args: func(base *gorm.DB) []interface{} { return []interface{}{base.Not(st.args[0], st.args[1:]...)} }})
+		add(&Unit{Label: "db.Where(" + st.lab + ").Or(Eq{b,2})", Render: "group", Conn: "or", Tree: Or(st.tree, B2.n), Neg: Not(Or(st.tree, B2.n)), NegOK: true,
+			Members: []*Node{st.tree, B2.n}, Unqualified: true, Ext: true,
+			Args: func(base *gorm.DB) []interface{} {
+				return []interface{}{base.Where(st.args[0], st.args[1:]...).Or(B2.expr)}
+			}})
 	}
 	return us
 }
